@@ -408,17 +408,18 @@ class ASTSchemaPrinter:
     def print_schema_definition(self, schema: Schema) -> str:
         directives = self.print_directives(schema)
 
+        def follows_convention(default_name, root_type):
+            # Without a schema definition a type carrying a default name *is*
+            # the corresponding root type.
+            if root_type is None:
+                return default_name not in schema.types
+            return root_type.name == default_name
+
         if (
             not directives
-            and (not schema.query_type or schema.query_type.name == "Query")
-            and (
-                not schema.mutation_type
-                or schema.mutation_type.name == "Mutation"
-            )
-            and (
-                not schema.subscription_type
-                or schema.subscription_type.name == "Subscription"
-            )
+            and follows_convention("Query", schema.query_type)
+            and follows_convention("Mutation", schema.mutation_type)
+            and follows_convention("Subscription", schema.subscription_type)
         ):
             return ""
 
